@@ -22,6 +22,15 @@ def gen_sfc():
     out += "Definition hilbert_split_tolerance_bits : N := %d%%N.  (* %s *)\n" % (_f64_bits(m.group(1)), m.group(1))
     # the model has one split per part boundary: no `dedup` of the splits (DESIGN §8 #4)
     out += "Definition hilbert_splits_dedup : bool := %s.\n" % coq_bool(re.search(r"\.dedup\w*\s*\(", wq) is not None)
+    # the epsilon of the two `abs_diff_eq!` tests of the neighbour scans (fail closed on anything else)
+    wqn = re.sub(r"\s+", "", wq)
+    n_old = wqn.count("approx::abs_diff_eq!(pw.as_(),expected_left_weight)")
+    n_new = wqn.count("approx::abs_diff_eq!(pw.as_(),expected_left_weight,epsilon=f64::EPSILON*f64::min(1.0,total_weight.as_()))")
+    n_all = wqn.count("abs_diff_eq!(")
+    if n_all != 2 or (n_old, n_new) not in ((2, 0), (0, 2)):
+        raise Fail("the two abs_diff_eq! tests of weighted_quantiles are not recognised (default epsilon x2, or "
+                   "epsilon = f64::EPSILON * f64::min(1.0, total_weight.as_()) x2)")
+    out += "Definition hilbert_eps_scaled : bool := %s.\n" % coq_bool(n_new == 2)
     pi = fn_body(src, "partition_indexed")
     if pi is None:
         raise Fail("fn partition_indexed not found")
@@ -84,14 +93,18 @@ PROP = dict(
     rule="three streams: (1) bsearch -- random UNSORTED/sorted/constant u64 arrays (len 0..300) and keys, slice::binary_search and "
          "binary_search_by(never-Equal comparator) against Lib/Sorting.v; (2) HilbertCurve on 2-D/3-D point sets (uniform, clustered, "
          "collinear, coincident, lattice, duplicates, one outlier) x weights (ones, integer, dyadic fractional, zeros, one dominant, "
-         "arbitrary fractional) x part_count 1..n+2 x orders 0..MAX+1 x pools 1,2,4,8,16, plus a malformed stream (1/15: weights or ids shorter/longer "
+         "arbitrary fractional; 1/25 tiny totals: j*scale with scale 2^-55..2^-1074 and 1e-16..1e-300) x part_count 1..n+2 x orders 0..MAX+1 x pools 1,2,4,8,16, plus a malformed stream (1/15: weights or ids shorter/longer "
          "than the points; outside the contract, model vs implementation only); (3) ZCurve on the same point families x "
          "part_count 1..n+2 x orders 0..max_order+1 x the same pools, 1/3 of them midline lattices (product grids on a 0.1 / 0.25 lattice, "
          "axes spanning zero with bounds of magnitude 16..32 mostly, points on the midlines of the first levels, orders 2..9). distinct = distinct (stream, points, weights, part_count, order, "
          "pool); non-trivial = bsearch: len >= 2; curves: at least 3 points, part_count >= 2, an accepted order and matching lengths",
     class_names={0: "Ok", 2: "error (InvalidOrder)", 3: "panic", 4: "hang", 10: "bsearch"},
     trusted_base=[
-        "axioms: none (every theorem of Properties/C09.v is closed under the global context)",
+        "axioms: none, except for C09_f64_add_exact / C09_f64_add_exact_on_integers and the three premise-free schedule theorems "
+        "(C09_hilbert_sched_indep_proved, C09_hilbert_sched_is_sequential_proved, C09_histogram_sched_indep_proved), which go through "
+        "Flocq and therefore use the standard axioms of Coq's classical real numbers: ClassicalDedekindReals.sig_forall_dec, "
+        "ClassicalDedekindReals.sig_not_dec, Classical_Prop.classic, FunctionalExtensionality.functional_extensionality_dep; every "
+        "other theorem of Properties/C09.v is closed under the global context",
         "slice::binary_search_by = the loop transcribed in coq/Lib/Sorting.v (from rust-src of 1.97.0-nightly; validated against the "
         "linked std on every run by the bsearch stream, unsorted arrays included)",
         "the per-point Hilbert indices (the encoders are C08's subject) and ZCurve's bounding box, rotated coordinates and final permutation "
@@ -104,13 +117,15 @@ PROP = dict(
     assumptions=[
         "HilbertCurve: points, weights and part ids have the same length; part_count >= 1; weights finite and non-negative",
         "ZCurve: points and part ids have the same length; part_count >= 1; order <= max_order (64 in 2-D, 42 in 3-D)",
-        "C09_hilbert_sched_indep (for C06) has the premise f64_add_exact_on_integers (f64 + exact on non-negative integers with sum <= 2^53, "
-        "DESIGN §6's named assumption; not derived from SpecFloat) and covers integer-valued non-negative weights with total <= 2^53",
+        "schedule independence (C09_hilbert_sched_indep_proved, for C06) covers integer-valued non-negative weights with total <= 2^53; "
+        "its former premise f64_add_exact_on_integers is now proved (Proofs/F64AddExact.v, Flocq); dyadic fractional weights are not covered",
         "geometric clause (the Z-order cell of a point contains the point): claimed for points that the top-level box contains, level by "
         "level while the midlines are eps-effective (c - eps < c < c + eps; void from magnitude 32 on, where HEAD's absolute tolerance "
         "10*EPSILON of BoundingBox::contains is below half an ulp)",
-        "termination of weighted_quantiles is proved for part_count <= 2 only (C09_quantiles_terminate_partial); for part_count >= 3 it "
-        "is NOT proved (open obligation of DESIGN §7 C01): the model runs it on fuel, the correspondence watches for hangs, and "
+        "termination of weighted_quantiles: proved for part_count <= 2 (C09_quantiles_terminate_partial); REFUTED for the comparison with the "
+        "absolute default epsilon (C09_quantiles_terminate_refuted, total weight of the order of f64::EPSILON or below; repaired in /repo by a "
+        "scale-aware epsilon, flag hilbert_eps_scaled); for the repaired comparison unproved and unrefuted: the model runs on fuel, the "
+        "correspondence watches for hangs (tiny-weight family included), "
         "every C09 theorem about HilbertCurve is stated for runs that return",
     ],
 )
@@ -124,7 +139,7 @@ MANIFEST = dict(
          "for a point contains the point (f64 box arithmetic, wherever the code's tolerance is effective). Certified checkers judge every implementation output.",
     design_ref="DESIGN.md §7 C09",
     note="Trusted: Coq kernel; model<->code tie = translator (tolerance, order limits, dedup absence, chunk guard) + differential runs with "
-         "hook-recorded indices/codes/permutation; termination of weighted_quantiles proved for <= 2 parts only, otherwise unproved and not refuted (fuel + watchdog; cycle-detecting sweeps found no repeating state). No axioms.",
+         "hook-recorded indices/codes/permutation; termination of weighted_quantiles proved for <= 2 parts, refuted for tiny total weights (machine-checked witness, confirmed on the real code), open for ordinary weights (fuel + watchdog). Axioms: classical reals (via Flocq) only for f64_add_exact and the premise-free schedule theorems.",
     technique="Coq proof (invariant of the library binary-search loop; induction on the quadrant recursion) + translator + "
               "model/implementation correspondence + certified checkers",
 )
